@@ -54,9 +54,14 @@ def cal_pool(base_day):
         ("all2", W([0, 1, 2, 3, 4, 5, 6], cal.q(2)), True, False),
         ("half", W([0, 1, 2, 3, 4], cal.q(1, 2)), True, False),
         ("mix", cal.weekly_dict({0: cal.q(8), 1: cal.q(4), 3: cal.q(1), 5: cal.q(2)}), True, False),
+        # a pooled team: more than 24 units a day (36: a quarter unit is ten minutes of such a day - dates stay whole minutes)
+        ("team36", W([0, 1, 2, 3, 4], cal.q(36)), True, False),
         ("uneven", cal.weekly_dict({0: cal.q(2), 1: cal.q(8), 2: cal.q(8), 3: cal.q(8), 4: cal.q(8)}), True, False),
         ("dated|wk", cal.op("|", D({b + 1: cal.q(3), b + 2: cal.q(0), b + 3: cal.q(6)}), W([0, 1, 2, 3, 4], cal.q(8))),
          True, False),
+        # a dated calendar whose days were changed afterwards (set_units): the later value counts
+        ("steps|wk", cal.op("|", cal.direct_steps({b + 1: cal.q(8), b + 2: cal.q(8)}, {b + 2: cal.q(2), b + 3: cal.q(6)}),
+                            W([0, 1, 2, 3, 4], cal.q(8))), True, False),
         ("wk-1", cal.op("-", W([0, 1, 2, 3, 4], cal.q(8)), cal.number(cal.q(2))), True, False),
         ("wk*half", cal.op("*", W([0, 1, 2, 3, 4, 5], cal.q(4)), cal.number(cal.q(1, 2))), True, False),
         ("wk+sat", cal.op("+", W([0, 1, 2, 3, 4], cal.q(6)), W([5], cal.q(3))), True, False),
@@ -221,7 +226,7 @@ def gen_case(rng, direction, n, cid, opts=None):
     # nothing about when its predecessor must end, and is not a task to be scheduled here
     xsucc = []
     if direction == "bwd" and rng.random() < 0.12:
-        xsucc.append({"t": rng.randint(1, n), "inwbs": rng.random() < 0.5})
+        xsucc.append({"t": rng.randint(1, n), "inwbs": rng.random() < 0.5, "after": rng.choice([0, 0, 1, 14])})
     # resources
     pool = cal_pool(base)
     names = ["A", "B", NONE_NAME]
@@ -248,6 +253,10 @@ def gen_case(rng, direction, n, cid, opts=None):
                                   "calname": "default"})
             used[nm] = len(resources)
         t["res"] = used[nm]
+    # work for several days of a pooled team (more than 24 units a day)
+    for t in tasks:
+        if resources[t["res"] - 1]["calname"] == "team36" and not t["kids"] and rng.random() < 0.5:
+            t["bigest"] = True
     # eighths of a unit only where every capacity still gives whole-minute dates
     eighths = all(r["supplied"] and r["calname"] in ("half", "all2", "mwf4", "wk*half") for r in resources)
     # attributes
@@ -283,6 +292,8 @@ def gen_case(rng, direction, n, cid, opts=None):
             t["est"] = [fr.numerator, fr.denominator]
         else:
             t["est"] = q4(rng.choice([1, 2, 3, 4, 4, 6, 8, 8, 10, 12, 16, 20, 24, 32, 40, 48]))
+        if t.pop("bigest", False):
+            t["est"] = q4(rng.choice([120, 160]))
         r = rng.random()
         if r < 0.25 and t["est"] != NOQ:
             e = Fraction(*t["est"])
@@ -311,7 +322,7 @@ def gen_case(rng, direction, n, cid, opts=None):
     I = {"dir": direction, "balance": opts.get("balance", rng.random() < 0.7),
          "submin": rng.choice([0, 0, 0, 1, 30, 59]) * 1000000 + rng.choice([0, 0, 250000, 999000]),
          "defEst": q4(rng.choice([0, 0, 8, 10, 1])), "pstart": pstart, "now": now, "tasks": tasks, "roots": roots,
-         "resources": resources, "ext": ext, "xsucc": xsucc, "strids": rng.random() < 0.08,
+         "resources": resources, "ext": ext, "xsucc": xsucc, "strids": rng.random() < 0.08, "linksfirst": rng.random() < 0.25,
          "noise": False, "tod": any(r["calname"] in ("tod-end", "div0") for r in resources)}
     for t in tasks:
         t["noise"] = 0
@@ -391,18 +402,39 @@ def build_wbs(I, keep=None):
                 parent_list.append(objs[c])
                 attach(objs[c].children, I["tasks"][c - 1]["kids"])
 
-    attach(w.roots, I["roots"])
-    for i, t in enumerate(I["tasks"], start=1):
-        if i not in objs:
-            continue
-        pre = []
-        for p in t["pre"]:
-            if p > n:
-                pre.append(exts[p - n - 1])
-            elif p in objs:
-                pre.append(objs[p])
-        if pre:
-            objs[i].predecessors = pre
+    def link():
+        for i, t in enumerate(I["tasks"], start=1):
+            if i not in objs:
+                continue
+            pre = []
+            for p in t["pre"]:
+                if p > n:
+                    pre.append(exts[p - n - 1])
+                elif p in objs:
+                    pre.append(objs[p])
+            if pre:
+                objs[i].predecessors = pre
+
+    # the same plan may be put together in another order: the dependencies first (between tasks that are still
+    # free-standing), the hierarchy afterwards - what a task remembers about its ancestors must follow
+    done = False
+    if I.get("linksfirst") and keep is None:
+        try:
+            link()
+            # ... and the hierarchy bottom-up: a subtree is complete before it is hung below its parent
+            for i in sorted(objs, reverse=True):
+                for o in objs.values():
+                    o.all_parents, o.all_predecessors
+                kids = [objs[c] for c in I["tasks"][i - 1]["kids"] if c in objs]
+                if kids:
+                    objs[i].children = kids
+            w.roots = [objs[r] for r in I["roots"] if r in objs]
+            done = True
+        except RuntimeError:
+            return build_wbs(dict(I, linksfirst=False), keep)
+    if not done:
+        attach(w.roots, I["roots"])
+        link()
     for k, e in enumerate(I["ext"], start=1):
         if e.get("removed"):
             w.roots.append(exts[k - 1])
@@ -410,6 +442,10 @@ def build_wbs(I, keep=None):
     for k, e in enumerate(I.get("xsucc", []), start=1):
         if e["t"] in objs:
             sx = pj.Task(9600 + k, name="extsucc%d" % k, estimate=8)
+            if e.get("after"):
+                # dated, and not before the requested end: it cannot ask for anything the deadline does not ask for
+                sx.start = inst(I["pstart"] + e["after"] * DAY)
+                sx.end = sx.start + _dt.timedelta(days=1)
             if e["inwbs"]:
                 other.roots.append(sx)
             sx.predecessors = [objs[e["t"]]]
@@ -439,12 +475,18 @@ def _alarm(signum, frame):
 
 
 _RETRIES = [3]
+_CLOCK = [None]             # when this process started on its chunk of inputs (set by _execute_chunk only)
+_BUDGET = 240.0
 
 
 def guarded(fn, seconds=20.0):
     """returns (out, value): out in ok / RuntimeError / RecursionError / timeout / <other exception class>.
     A timeout is only believed after a second, much longer attempt (a loaded machine must not look like
     an unbounded loop); at most 3 such retries per process."""
+    if _CLOCK[0] is not None and time.time() - _CLOCK[0] > _BUDGET:
+        # this process (50 inputs; about two seconds with the unchanged library) has used a hundred times its
+        # share: what is left is not executed but counted as not terminating, so that a check always ends
+        return "timeout", None
     out, val = _guarded(fn, seconds)
     if out == "timeout" and _RETRIES[0] > 0:
         _RETRIES[0] -= 1
@@ -713,6 +755,7 @@ def execute(case):
 
 def _execute_chunk(chunk):
     common.pjplan()
+    _CLOCK[0] = time.time()
     for c in chunk:
         execute(c)
     common.set_now(None)
